@@ -23,6 +23,7 @@ import (
 	"path/filepath"
 	"sort"
 	"strings"
+	"sync"
 	"time"
 
 	"github.com/miekg/dns"
@@ -36,6 +37,9 @@ import (
 )
 
 func init() { register("sem", semMain) }
+
+// semConcurrent: queries are served from several goroutines; the process-wide db.SeparateBitMap switch is left alone
+var semConcurrent bool
 
 type semOpts struct {
 	Builder  bool `json:"builder"`
@@ -317,10 +321,13 @@ func semServe(b *semBackend, in *semIn) (resp semResp) {
 	if in.MaxAns > 0 {
 		ctx = dnsserver.WithMaxAnswer(ctx, in.MaxAns)
 	}
-	old := db.SeparateBitMap
-	db.SeparateBitMap = b.sep
+	if !semConcurrent {
+		db.SeparateBitMap = b.sep
+	}
 	defer func() {
-		db.SeparateBitMap = old
+		if !semConcurrent {
+			db.SeparateBitMap = false
+		}
 		if e := recover(); e != nil {
 			resp = semResp{Panic: fmt.Sprint(e), An: []semRR{}, Ns: []semRR{}, Ex: []semRR{}, ECS: semRespECS{B: []int{}}}
 		}
@@ -483,7 +490,9 @@ func semMain(args []string) {
 	in := fs.String("in", "", "input ndjson")
 	out := fs.String("out", "trace.ndjson", "output ndjson")
 	backends := fs.String("backends", "cdb,cdbsep,v1,v2", "backends to run")
+	conc := fs.Int("conc", 1, "goroutines that share the repetitions of a query (reps > 1)")
 	fs.Parse(args)
+	semConcurrent = *conc > 1
 	want := map[string]bool{}
 	for _, b := range strings.Split(*backends, ",") {
 		want[b] = true
@@ -523,6 +532,32 @@ func semMain(args []string) {
 			if reps <= 0 {
 				reps = 1
 			}
+			if *conc > 1 && reps > 1 {
+				// the repetitions are shared by goroutines that use the handlers (and the shared random source) at once
+				var wg sync.WaitGroup
+				var mu sync.Mutex
+				for g := 0; g < *conc; g++ {
+					wg.Add(1)
+					go func(g int) {
+						defer wg.Done()
+						for i := g; i < reps; i += *conc {
+							res := map[string]semResp{}
+							for _, b := range world.backends {
+								if b.sep {
+									continue // db.SeparateBitMap is a process-wide switch: not toggled concurrently
+								}
+								res[b.name] = semServe(b, &e)
+							}
+							mu.Lock()
+							wr.Put(map[string]interface{}{"ev": "q", "file": e.File, "qid": e.QID, "q": e.Q, "r": res, "tag": e.Tag})
+							nq++
+							mu.Unlock()
+						}
+					}(g)
+				}
+				wg.Wait()
+				break
+			}
 			for i := 0; i < reps; i++ {
 				res := map[string]semResp{}
 				for _, b := range world.backends {
@@ -531,6 +566,45 @@ func semMain(args []string) {
 				wr.Put(map[string]interface{}{"ev": "q", "file": e.File, "qid": e.QID, "q": e.Q, "r": res, "tag": e.Tag})
 				nq++
 			}
+		case "freq":
+			// the same single-address query asked Reps times: how often each address was the one served
+			if world == nil {
+				hx.Die("freq before file")
+			}
+			type cnt struct {
+				RD []int `json:"rd"`
+				C  int   `json:"c"`
+			}
+			counts := map[string][]cnt{}
+			other := map[string]int{}
+			for _, b := range world.backends {
+				m := map[string]*cnt{}
+				keys := []string{}
+				for i := 0; i < e.Reps; i++ {
+					r := semServe(b, &e)
+					if !r.Written || r.Rcode != 0 || len(r.An) != 1 || r.An[0].T != int(e.Type) {
+						other[b.name]++
+						continue
+					}
+					k := fmt.Sprint(r.An[0].RD)
+					if m[k] == nil {
+						m[k] = &cnt{RD: r.An[0].RD}
+						keys = append(keys, k)
+					}
+					m[k].C++
+				}
+				sort.Strings(keys)
+				lst := []cnt{}
+				for _, k := range keys {
+					lst = append(lst, *m[k])
+				}
+				counts[b.name] = lst
+				if _, ok := other[b.name]; !ok {
+					other[b.name] = 0
+				}
+			}
+			wr.Put(map[string]interface{}{"ev": "freq", "file": e.File, "qid": e.QID, "q": e.Q, "n": e.Reps, "counts": counts, "other": other, "tag": e.Tag})
+			nq += e.Reps
 		case "loc":
 			if world == nil {
 				hx.Die("loc before file")
